@@ -15,6 +15,11 @@ def _grid(names, contracts=()):
     return 2 if len(names) <= 4 else (1 if len(names) <= 6 else 0)
 
 
+def family_clean(c):
+    return {"inv": c["inv"], "outv": c["outv"], "a": [{k: r[k] for k in ("co", "c", "k")} for r in c["a"]],
+            "g": [{k: r[k] for k in ("co", "c", "k")} for r in c["g"]]}
+
+
 def _call(fn):
     try:
         return fn(), "none", ""
@@ -22,7 +27,11 @@ def _call(fn):
         return None, type(e).__name__, str(e)[:300]
 
 
-def _finish(ev, res_obj, exc, msg, groups, clause_fn):
+def _finish(ev, res_obj, exc, msg, groups, clause_fn, operands=()):
+    # the operands as they are AFTER the call (C06/C13: an operation must not edit its operands)
+    after = [family_clean(C.pcontract(o)) for o in operands]
+    before = [family_clean(ev[k]) for k in ("c1", "c2")][: len(after)]
+    ev["intact"] = after == before
     ev["exc"] = exc
     ev["_msg"] = msg
     ev["groups"] = list(groups)
@@ -75,7 +84,7 @@ def ev_compose(c1, c2, keep, simplify, order, groups):
             return None if connected else C.exact(ev["c1"], ev["c2"], r)
         return None
 
-    return _finish(ev, res, exc, msg, groups, cf)
+    return _finish(ev, res, exc, msg, groups, cf, (c1, c2))
 
 
 def ev_quotient(c, c1, addl, simplify, order, groups):
@@ -92,7 +101,7 @@ def ev_quotient(c, c1, addl, simplify, order, groups):
             return C.quotient_sound(ev["c1"], ev["c2"], ev["res"])
         return None
 
-    return _finish(ev, res, exc, msg, groups, cf)
+    return _finish(ev, res, exc, msg, groups, cf, (c, c1))
 
 
 def ev_merge(c1, c2, groups):
@@ -107,7 +116,7 @@ def ev_merge(c1, c2, groups):
             return C.keeps(ev["c1"], ev["c2"], ev["res"])
         return None
 
-    return _finish(ev, res, exc, msg, groups, cf)
+    return _finish(ev, res, exc, msg, groups, cf, (c1, c2))
 
 
 def ev_rename(c, s, t, groups):
@@ -122,7 +131,7 @@ def ev_rename(c, s, t, groups):
             return C.equiv(ev["res"], C.renamed(ev["c1"], s, t))
         return None
 
-    return _finish(ev, res, exc, msg, groups, cf)
+    return _finish(ev, res, exc, msg, groups, cf, (c,))
 
 
 def ev_renames(c, maps, groups):
@@ -139,7 +148,7 @@ def ev_renames(c, maps, groups):
             return C.equiv(ev["res"], want)
         return None
 
-    ev = _finish(ev, res, exc, msg, groups, cf)
+    ev = _finish(ev, res, exc, msg, groups, cf, (c,))
     for s_, t_ in maps:
         ev["names"] = sorted(set(ev["names"]) | {s_, t_})
     return ev
